@@ -83,6 +83,23 @@ def lua_plan(lib):
         seen.add(key)
         ops.append(dict(kind="bad", f=f, k=0, bad="too-many"))
         ops.append(dict(kind="bad", f=f, k=0, bad="wrong-type"))
+    # one argument of an otherwise matching stack replaced by a value no scalar signature accepts: every
+    # position of every admitted argument count (the guard of each position is what selects the member)
+    seen = set()
+    for op in list(ops):
+        if op["kind"] not in ("call", "mcall"):
+            continue
+        f = op["f"]
+        if not (f.get("noverload", 1) > 1 or f.get("ndefault")):
+            continue
+        call = f["calls"][op["k"]]
+        nargs = call.get("nargs", len(f["params"]))
+        key = (f["fid"], nargs)
+        if key in seen:
+            continue
+        seen.add(key)
+        for j in range(nargs):
+            ops.append(dict(op, kind="bad", bad="wrong-at", j=j, via=op["kind"]))
     return ops
 
 
@@ -99,6 +116,16 @@ def lua_driver(lib):
             continue
         f = op["f"]
         call = f["calls"][op["k"]]
+        if op["kind"] == "bad" and op["bad"] == "wrong-at":
+            if op["via"] == "mcall":
+                out.append("    vfl_pushsaved(L, %d);" % op["obj"])
+            for idx, p in enumerate(f["params"]):
+                if "nargs" in call and idx >= call["nargs"]:
+                    continue
+                out.append("    lua_newuserdata(L, 4);" if idx == op["j"] else "    " + push(p, call))
+            out += [('    n = vfl_callmethod(L, "%s");' if op["via"] == "mcall" else '    n = vfl_call(L, "%s");') % f["name"],
+                    '    if (n == -1) printf("X error\\n"); else printf("X accepted %d\\n", n);', "    fflush(stdout);"]
+            continue
         if op["kind"] == "bad":
             if op["bad"] == "too-many":
                 out += ["    lua_pushinteger(L, 1);"] * 8      # more than any generated signature takes
